@@ -446,6 +446,13 @@ void eop(string *a) {
       }
     }
     break;
+  case "parse":   // parse: parse_command() over this object's inventory (each object's id-list apply runs its "pid" hook)
+    {
+      mixed r1, r2; int ok;
+      ok = parse_command("get red ball from balls", all_inventory(this_object()), " 'get' %i 'from' %i ", r1, r2);
+      rec("PARSED " + ok + " " + (arrayp(r1) ? sizeof(r1) : -1));
+    }
+    break;
   case "sort":
     cb_script = sub(implode(a[1..], " "));
     r = sort_array(({ 3, 1, 2, 5, 4 }), "cmp_cb", this_object());
@@ -654,7 +661,7 @@ void do_op(string op) {
   case "filter": case "map": case "sort":
     eop(a);
     break;
-  case "exec":
+  case "exec": case "parse":
     eop(a);
     break;
   case "spread2": // spread2 <script>: f(args..., g(script)) - the script runs between the expansion and the call
@@ -684,6 +691,9 @@ void do_op(string op) {
     // and destruct has no room to remove the sentence from (DESIGN.md 11.4, observations)
     if (this_object() == this_player() || environment(this_object()) || (this_player() && environment(this_player())))
       add_action("cmd_x", "x");
+    break;
+  case "reclaim": // reclaim_objects(): every reference to a destructed object, in every object, becomes 0 now
+    rec("RECLAIM " + reclaim_objects());
     break;
   case "rmx":     // remove_action of "x" from this_player() (legal anywhere; inside a verb function that returns 0 it is an error)
     catch(remove_action("cmd_x", "x"));
